@@ -103,4 +103,11 @@ def check(ctx):
     from .c04 import check_all_steps_and_storage
 
     check_all_steps_and_storage(ctx, "C02-i", None)
+    # C02-i: initial value and scaled pseudopressure of the wrapper; C02-j: interpolator options (no assume_sorted,
+    # no silent fill) in the modules the solver reads diffusivity and pseudopressure from
+    from .c09 import check_initial_value
+    from .common import check_interp_options
+
+    check_initial_value(ctx, "C02-i", "C02-i", classes=("FlowProperties",))
+    check_interp_options(ctx, "C02-j", ["bluebonnet.flow.reservoir", "bluebonnet.flow.flowproperties"], 6)
     ctx.floor("C02", len(ctx.obligs), 30, "consistency obligations")
